@@ -305,6 +305,9 @@ impl DocumentBuilder {
     fn comment(&mut self, content: &str, xot: &mut Xot) -> Result<NodeId, ParseError> {
         // XXX are there illegal comments, like those with -- inside? or
         // won't they pass the parser?
+        // line ends are normalized in comments too
+        // https://www.w3.org/TR/xml/#sec-line-ends
+        let content = normalize_line_ends(content);
         Ok(self.add(Value::Comment(Comment::new(content.to_string())), xot))
     }
 
@@ -320,7 +323,9 @@ impl DocumentBuilder {
         Ok(self.add(
             Value::ProcessingInstruction(ProcessingInstruction::new(
                 target,
-                content.map(|s| s.to_string()),
+                // line ends are normalized in the data of a processing
+                // instruction too
+                content.map(|s| normalize_line_ends(s).to_string()),
             )),
             xot,
         ))
